@@ -37,6 +37,8 @@ const (
 	c20R  c20kind = 'R' // bare ECONNRESET
 	c20O  c20kind = 'O' // ECONNRESET wrapped in net.OpError{os.SyscallError}
 	c20U  c20kind = 'U' // unknown error
+	c20I  c20kind = 'I' // bare EINTR: not one of the transient kinds, so an unknown failure (reported, reading goes on)
+	c20J  c20kind = 'J' // bare EMFILE: likewise
 	c20X  c20kind = 'X' // io.EOF
 	c20B  c20kind = 'B' // EBADF
 	c20C  c20kind = 'C' // "use of closed file"
@@ -47,7 +49,7 @@ const (
 )
 
 var c20alphabet = []c20kind{c20F, c20E, c20A, c20T, c20R, c20O, c20U, c20X, c20B, c20C}
-var c20alphabetLong = []c20kind{c20F, c20F, c20F, c20E, c20A, c20T, c20R, c20O, c20U, c20W, c20M, c20N}
+var c20alphabetLong = []c20kind{c20F, c20F, c20F, c20E, c20A, c20T, c20R, c20O, c20U, c20W, c20M, c20N, c20I, c20J}
 
 func (k c20kind) terminal() bool { return k == c20X || k == c20B || k == c20C || k == c20P }
 func (k c20kind) frame() bool    { return k == c20F || k == c20E }
@@ -137,6 +139,10 @@ func (r *c20reader) ReadPacketData() ([]byte, *gopacket.CaptureInfo, error) {
 		return nil, nil, &net.OpError{Op: "read", Net: "packet", Err: os.NewSyscallError("recvfrom", syscall.ECONNRESET)}
 	case c20U:
 		return nil, nil, r.unknown[i]
+	case c20I:
+		return nil, nil, syscall.EINTR
+	case c20J:
+		return nil, nil, syscall.EMFILE
 	case c20X:
 		return nil, nil, io.EOF
 	case c20B:
@@ -281,7 +287,7 @@ func c20run(run *vlab.Run, sc c20script) {
 		if calls-1 >= 0 && calls-1 < n {
 			k := c20kind(sc.syms[calls-1])
 			switch {
-			case k == c20U:
+			case k == c20U || k == c20I || k == c20J:
 				why = "an unknown read error stopped the receiver"
 			case k == c20E:
 				why = "a processing error stopped the receiver"
@@ -340,6 +346,29 @@ func c20run(run *vlab.Run, sc c20script) {
 	gotSet := map[error]int{}
 	for _, e := range got {
 		gotSet[e]++
+	}
+	// unknown failures that are plain errno values (the same value every time): counted
+	for _, bk := range []struct {
+		k   c20kind
+		val error
+	}{{c20I, syscall.EINTR}, {c20J, syscall.EMFILE}} {
+		certain, total := 0, 0
+		for i := 0; i < n && i <= firstTerm; i++ {
+			if c20kind(sc.syms[i]) == bk.k {
+				total++
+				if i < certainEnd {
+					certain++
+				}
+			}
+		}
+		c := gotSet[bk.val]
+		delete(gotSet, bk.val)
+		if c < certain && calls >= minCalls {
+			run.Violation("error-lost:"+string(bk.k), fmt.Sprintf("%d reads failed with %v (not a transient kind: an unknown failure, reported once each), %d reports: %s", certain, bk.val, c, desc()), w)
+		}
+		if c > total {
+			run.Violation("error-duplicated:"+string(bk.k), fmt.Sprintf("%d reads failed with %v, %d reports: %s", total, bk.val, c, desc()), w)
+		}
 	}
 	for i := 0; i < n && i <= firstTerm; i++ {
 		var exp error
@@ -417,7 +446,7 @@ func TestVerifC20(t *testing.T) {
 	}
 	nCancel := len(scripts) - nExh
 	// ---- extra terminal kinds and wrapped transient
-	for _, s := range []string{"P", "FP", "WF", "WWEUFX", "FWB", "UUP", "MF", "NF", "FMNEUFX", "MMMNNNF", "MNUF", "EMF"} {
+	for _, s := range []string{"IF", "FIFJF", "IIJJFX", "FIEJUFX", "AIF", "P", "FP", "WF", "WWEUFX", "FWB", "UUP", "MF", "NF", "FMNEUFX", "MMMNNNF", "MNUF", "EMF"} {
 		scripts = append(scripts, c20script{syms: s, cancelAt: -1})
 	}
 	// ---- long random sequences with bursts of unknown/processing errors > 100 (the error channel's buffer)
